@@ -312,6 +312,15 @@ class Gen:
                 "lo|groupby('a')|map('first')|join",
                 "lo|unique(attribute='a')|list|length|string",
                 "lo|tojson(indent=2)",
+                "(('alpha beta gamma delta ' ~ s1)|wordwrap(7)) ~ '/' ~ (('alpha beta gamma-delta epsilon ' ~ s2)|wordwrap(12, false, '|', false))",
+                "('alpha beta gamma-delta ' ~ s2)|wordwrap(12, false, '|', false)",
+                "l1|reject('in', [1, 2])|join(',')",
+                "l1|select('in', [0, 3, 4])|join(',')",
+                "ld|rejectattr('k', 'in', [1])|map(attribute='g')|join",
+                "lo|map(attribute='a', default=0)|join(',')",
+                "lo|map(attribute='k')|join(',')",
+                "lo|sum(attribute='k')|string",
+                "lo|sort(attribute='k')|map(attribute='b')|join",
                 "l2|map('upper')|join",
                 "l1|select('odd')|join",
                 "l1|reject('gt', 1)|join",
@@ -1100,6 +1109,67 @@ class Gen:
             else:
                 P.templates["main"] += self.var(plain) + self.var(arg)
         return P
+
+
+# ---------------------------------------------------------------------------
+# micro programs: one filter / test / global used two ways by two tiny templates
+# ---------------------------------------------------------------------------
+MICRO_PAIRS = [
+    ("('alpha beta gamma delta ' ~ s1)|wordwrap(7)", "('alpha beta gamma-delta epsilon ' ~ s2)|wordwrap(12, false, '|', false)"),
+    ("('alpha beta gamma ' ~ s1)|truncate(9)", "('alpha beta gamma ' ~ s2)|truncate(14, true, '!', 0)"),
+    ("(s1 ~ '\nb\nc')|indent(2)", "(s2 ~ '\nb\n\nc')|indent(4, true, true)"),
+    ("s1|center(9)", "s2|center(15)"),
+    ("d1|tojson", "ld|tojson(indent=2)"),
+    ("('see http://example.org/x ' ~ s1)|urlize", "('see www.example.org ' ~ s2)|urlize(8, true, target='_top', rel='me')"),
+    ("s1|replace('a', 'b')", "s2|replace('b', 'c', 1)"),
+    ("(n1 / 3)|round(1)", "(n2 / 7)|round(2, 'floor')"),
+    ("l1|join(',')", "l2|join('|')"),
+    ("l1|batch(2)|list|string", "l2|batch(3, 'x')|list|string"),
+    ("l1|slice(2)|list|string", "l2|slice(3, '-')|list|string"),
+    ("l1|sort|join", "l2|sort(reverse=true, case_sensitive=true)|join"),
+    ("d1|dictsort|list|string", "d1|dictsort(false, 'value', true)|list|string"),
+    ("(n1 * 1000)|filesizeformat", "(n2 * 1000000)|filesizeformat(true)"),
+    ("'%s-%s'|format(n1, s1)", "'%(a)s/%(b)s'|format(a=s2, b=n2)"),
+    ("u1|default('x')", "s1|default('y', true)"),
+    ("s1|int", "'ff'|int(0, 16)"),
+    ("ld|groupby('g')|map('first')|join", "ld|groupby('k', default=0)|map('last')|map('length')|join(',')"),
+    ("l2|unique|join", "ld|unique(attribute='g')|map(attribute='g')|join"),
+    ("l2|map('upper')|join", "ld|map(attribute='g')|map('lower')|join"),
+    ("l1|select('odd')|join", "l1|reject('gt', 1)|join"),
+    ("l1|sum", "lw|sum(start=l0)|length"),
+    ("d1|xmlattr", "{'class': s1, 'id': n1}|xmlattr(false)"),
+    ("s1|title", "s2|capitalize"),
+    ("s1|trim", "s2|trim('a ')"),
+    ("('<b>' ~ s1 ~ '</b>')|striptags", "s2|wordcount"),
+    ("s1|urlencode", "d1|urlencode"),
+    ("d1|pprint", "l1|pprint"),
+    ("o1|attr('a')", "o1|attr('b')"),
+    ("ld|min(attribute='k')|string", "ld|max(attribute='k')|string"),
+    ("l1|first", "l2|last"),
+    ("l1|length", "s1|length"),
+    ("s1|list|join('-')", "l1|reverse|list|string"),
+    ("s1|e", "s2|forceescape"),
+    ("n1 is divisibleby 2", "n2 is divisibleby 3"),
+    ("s1 is in l2", "n1 is in l1"),
+    ("range(n1 % 4)|list|string", "range(1, n2 % 5 + 2, 2)|list|string"),
+    ("cycler('a', 'b').next()", "joiner('|')() ~ '.'"),
+    ("namespace(x=n1).x", "dict(a=s1)|tojson"),
+    ("lipsum(1, false, 3, 5)|length > 0", "lipsum(2, true, 2, 4)|length > 0"),
+]
+
+
+def micro_program(tape, stream: str = "w") -> Program:
+    """Two one-expression templates that use the same filter / test / global in two different ways."""
+    P = Program()
+    a, b = MICRO_PAIRS[tape.draw(len(MICRO_PAIRS), stream)]
+    if tape.draw(2, stream):
+        a, b = b, a
+    P.templates = {"main": "{{ " + a + " }}", "m1": "{{ " + b + " }}"}
+    if tape.draw(3, stream) == 0:
+        P.templates["m1"] = P.templates["main"]  # the same use from both sides
+    P.entry_points = ["main", "m1"]
+    P.feat("micro")
+    return P
 
 
 # ---------------------------------------------------------------------------
